@@ -12,10 +12,12 @@ CFG_T = (" The thorough tier also runs the quick depth in child processes under 
          "default_enzyme_density ({inf, inf}, {2.165, 1.35}).")
 # additions of waves 17 / 18 (appended to the level text)
 EXTRA = {
- 'C01': " Draws from dry sources whose mass is below the storage resolution of a gram.",
- 'C02': " Draws from dry sources whose mass is below the storage resolution of a gram.",
+ 'C01': " Draws from dry sources whose mass is below the storage resolution of a gram; a single source well written as a one-element list.",
+ 'C02': " Draws from dry sources whose mass is below the storage resolution of a gram; a single source well written as a one-element list.",
  'C03': " Decimal capacities (every tenth of a uL up to 50 uL and of a mL up to 50 mL) filled exactly at construction, by fill_to and by transfer; 47 two-step recipes whose second step fits only on the vessel as the first step left it, and dilutions of one liquid with another: the recipe accepts / refuses what the container operations do.",
  'C04': " Refused create_solution_from / dilute / start_stage calls inside programs; every action on a world whose objects were looked at (all read-only queries) versus one that was not; every tracking query of every baked program of <= 2 steps asked twice with the others in between.",
+ 'C05': " Level 'short-container': a quarter more solvent than a solvent container holds (must be refused).",
+ 'C06': " Every spelling of a specific activity makes the same enzyme; the configured default densities are the ones in force.",
  'C09': " The enzyme is also asked for in mg, uL and mU.",
  'C10': " The wells a view addresses come from the independent resolver; observers also through a sub-slice of a strided slice.",
  'C11': " Mixtures whose parts measure exactly the same in one unit (equimolar solutes, equal volumes).",
